@@ -5,10 +5,10 @@ MusicXML reader itself uses for the same notation (directions through partitura.
 explicit, every note carries its symbolic duration - so the expected result of load(save(s)) is s itself."""
 from fractions import Fraction
 
-FEATURES = ["pickup", "chord", "two_voices", "two_staves", "tie_barline", "tie_chain", "tie_cross_voice", "grace", "grace_chain", "slur", "slur_barline",
+FEATURES = ["pickup", "chord", "two_voices", "two_staves", "tie_barline", "tie_chain", "tie_cross_voice", "grace", "grace_chain", "slur", "slur_chain", "slur_barline",
             "tuplet", "dynamics", "wedge", "dashes", "words", "pedal", "pedal_barline", "tempo", "tempo_mid", "repeat", "ending", "fermata_note", "fermata_barline", "fermata_inner_barline",
             "articulation", "articulation_order", "fingering", "stem", "unpitched", "rests", "key_change", "ts_change", "clef_change", "divisions_change",
-            "divisions_change_mid", "dotted", "page", "two_parts", "group", "nested_group", "voice_gap", "polyphony", "polyphony_two_voices",
+            "divisions_change_mid", "dotted", "page", "two_parts", "group", "nested_group", "nested_group_first", "voice_gap", "polyphony", "polyphony_two_voices",
             "measure_names", "irregular_measure", "accidentals", "duplicate_ids"]
 
 SYM = {Fraction(4): ("whole", 0), Fraction(3): ("half", 1), Fraction(2): ("half", 0), Fraction(3, 2): ("quarter", 1), Fraction(1): ("quarter", 0),
@@ -192,6 +192,11 @@ def build(features, pid="P1", seed=0):
     if "slur" in f:
         a, b = B.byid["n0"], B.byid["n2"]
         part.add(sc.Slur(a, b), a.start.t, b.end.t)
+    if "slur_chain" in f:
+        # two consecutive slurs sharing a note: one ends on the note the next begins on
+        a, b, c = B.byid["n0"], B.byid["n2"], B.byid["n3"]
+        part.add(sc.Slur(a, b), a.start.t, b.end.t)
+        part.add(sc.Slur(b, c), b.start.t, c.end.t)
     if "slur_barline" in f:
         a, b = B.byid["n5"], B.byid["n6"]
         part.add(sc.Slur(a, b), a.start.t, b.end.t)
@@ -256,6 +261,19 @@ def score(features, seed=0):
     import partitura.score as sc
     f = set(features)
     parts = [build(features, "P1", seed)]
+    if "nested_group_first" in f:
+        # a nested group that is NOT the last child of its parent, followed by a sibling part and by a part outside every group
+        keep = [x for x in features if x in ("pickup", "ts_change", "irregular_measure")]
+        parts += [build(keep, "P2", seed), build(keep, "P3", seed), build(keep, "P4", seed)]
+        inner = sc.PartGroup(group_symbol="bracket", group_name="violins", number=2)
+        inner.children = parts[0:2]
+        for p in inner.children:
+            p.parent = inner
+        outer = sc.PartGroup(group_symbol="brace", group_name="strings", number=1)
+        outer.children = [inner, parts[2]]
+        inner.parent = outer
+        parts[2].parent = outer
+        return sc.Score(partlist=[outer, parts[3]], id="S")
     if f & {"two_parts", "group", "nested_group"}:
         parts.append(build([x for x in features if x in ("pickup", "ts_change", "irregular_measure", "rests", "tie_barline")], "P2", seed))
     if "nested_group" in f:
